@@ -797,6 +797,12 @@ func (st *runState) confirm(v violation) (bool, int) {
 			}
 		}
 	}
+	if strings.Contains(v.Key, " parallel ") && n > 0 {
+		// sections that use real parallelism (two goroutines computing at the same time): the outcome
+		// depends on timing; on a tree where the property holds they cannot fail at all, so a failure that
+		// was observed in the run and again in at least one of five re-runs is reported
+		return true, n
+	}
 	if n == 5 || n > 0 {
 		return n == 5, n
 	}
